@@ -610,6 +610,11 @@ pub fn run(tier: Tier) -> i32 {
     println!("ENGINE-ERROR C17: round-trip program reported {seen} instances, expected {n_inst}");
     return 2;
   }
+  for k in [0usize, ss.len() / 2, ss.len() - 1] {
+    if let Some(list) = inst.get(&k.to_string()) {
+      run.sample(json!({"cddl": ss[k].text, "valid_instances": list.len(), "example_instance": list.first(), "generated_code_lines": codes[k].as_ref().map(|c| c.lines().count())}));
+    }
+  }
   run.states = n_inst + broad_n;
   run.transitions = n_inst * 2 + broad_n * 3;
   run.traces = n_inst;
